@@ -90,11 +90,15 @@ class DnsRequest {
     struct Request {
         Callback cb;
         size_t response_count = 0;
+        uint32_t serial = 0;    //!< 区分先后使用同一个 ReqId 的不同请求
     };
+
+    //! 超时监视器里登记的值：高位是请求的序号，低16位是 ReqId
+    using TimeoutToken = uint64_t;
 
     void init();
     void onUdpRecv(const void *data_ptr, size_t data_size, const SockAddr &from);
-    void onRequestTimeout(ReqId req_id);
+    void onRequestTimeout(TimeoutToken token);
 
     void addRequest(ReqId req_id, const Callback &cb);
     Request* findRequest(ReqId req_id);
@@ -102,10 +106,11 @@ class DnsRequest {
 
   private:
     UdpSocket udp_;
-    eventx::TimeoutMonitor<ReqId> timeout_monitor_;
+    eventx::TimeoutMonitor<TimeoutToken> timeout_monitor_;
 
     IPAddressVec dns_ip_vec_;
     ReqId req_id_alloc_ = 0;
+    uint32_t serial_alloc_ = 0;
 
     std::map<ReqId, Request> requests_;
 };
